@@ -1,4 +1,5 @@
 import SfModel.Routes
+import SfModel.RoutesApi
 import Driver.Util
 /-! `sfmodel routes` — the C14 correspondence driver: the case lines of harness/routes.c interpreted on `Sf.Routes`.
 
@@ -34,7 +35,7 @@ def setup (route : String) (mode : Mode) (cd : Bool) (lead trail : Nat) (content
     let r := openPath w0 mode
     openFileHead r.1 r.2
   else if route == "pipe" then
-    let w0 : World := { file := content, isPipe := true, fdnum := hFd, openFds := [hFd, sentinel] }
+    let w0 : World := { file := if mode == .w then [] else content, isPipe := true, fdnum := hFd, openFds := [hFd, sentinel] }
     openFd w0 hFd mode cd sd2Major
   else
     let w0 : World := { file := leadJunk lead ++ content ++ trailJunk trail, off := lead, fdnum := hFd, openFds := [hFd, sentinel] }
@@ -84,7 +85,7 @@ def shimCase (name : String) (toks : List String) : String :=
   let o := setup route mode cd lead trail content
   let head := s!"shim {name} open={errName o.err} off={o.sh.fileoffset} len={o.sh.filelength} pipe={if o.sh.isPipe then 1 else 0} |"
   let (mid, sh, w) := if o.err == .none then runOps o.sh o.w ops else ("", o.sh, o.w)
-  let file := if route == "vio" then hexBytes w.mem else if route == "pipe" then "-" else
+  let file := if route == "vio" then hexBytes w.mem else if route == "pipe" then (if mode == .w then hexBytes w.file else "-") else
     (if w.file.isEmpty then "" else hexBytes w.file)
   s!"{head}{mid} | err={errName sh.error} fd={fdState route w} sent={if w.openFds.contains sentinel then 1 else 0} file={file}"
 
@@ -109,6 +110,28 @@ def gateCase (name : String) (toks : List String) : String :=
   let c := if o.err == .none then fclose o.sh o.w else { ret := -1, sh := o.sh, w := o.w }
   s!"gate {name} open={errName o.err} off={if o.err == .none then o.sh.fileoffset else 0} len={if o.err == .none then o.sh.filelength else 0} fdopen={afterOpen} | close={c.ret} fd={fdState route c.w} sent={if c.w.openFds.contains sentinel then 1 else 0}"
 
+/-- `api <name> route= cd= lead= trail= content=<hex> dataoffset= blockwidth= align= frames= ops=s:<off>:<wh>;r:<bytes>;…`
+    a read session through the public calls: open (route part), sf_seek / sf_read_raw, sf_close -/
+def apiCase (name : String) (toks : List String) : String :=
+  let route := (kvGet toks "route").getD "fd"
+  let cd := kvBool toks "cd" true
+  let lead := kvNat toks "lead" 0
+  let trail := kvNat toks "trail" 0
+  let cs := (kvGet toks "content").getD "-"
+  let content := if cs == "-" then [] else parseHexBytes cs
+  let core : Core := { dataoffset := parseInt ((kvGet toks "dataoffset").getD "0"), blockwidth := parseInt ((kvGet toks "blockwidth").getD "1"),
+                       align := parseInt ((kvGet toks "align").getD "1"), frames := parseInt ((kvGet toks "frames").getD "0") }
+  let ops := ((kvGet toks "ops").getD "").splitOn ";" |>.filter (· ≠ "")
+  let o := setup route .r cd lead trail content
+  if o.err != .none then s!"api {name} open={errName o.err}" else
+  let aops : List ApiOp := ops.map fun op =>
+    let f := op.splitOn ":"
+    if f.headD "" == "s" then .seek (parseInt (f.getD 1 "0")) (parseInt (f.getD 2 "0")).toNat else .readRaw (parseInt (f.getD 1 "0"))
+  let r := gRun concStep core (o.sh, o.w) aops
+  let obs := r.1.map fun (x : ApiObs) => s!"ret={x.1} err={if x.2.2 then "E" else "0"} data={hexBytes x.2.1}"
+  let c := fclose r.2.2.1 r.2.2.2
+  s!"api {name} open=none | " ++ " | ".intercalate obs ++ s!" | close={c.ret} fd={fdState route c.w} sent={if c.w.openFds.contains sentinel then 1 else 0}"
+
 def cmd (_args : List String) : IO UInt32 := do
   let lines ← readLines
   for line in lines do
@@ -116,6 +139,7 @@ def cmd (_args : List String) : IO UInt32 := do
     match toks with
     | "shim" :: name :: rest => IO.println (shimCase name rest)
     | "gate" :: name :: rest => IO.println (gateCase name rest)
+    | "api" :: name :: rest => IO.println (apiCase name rest)
     | _ => pure ()
   return 0
 
